@@ -26,10 +26,13 @@ CARDS = {
     "nonascii.vcf": card("k2", ["FN:Jürgen Müller", "N:Müller;Jürgen;;;", "EMAIL;TYPE=HOME:juergen@example.de"]),
     "multi.vcf": card("k3", ["FN:Multi Mail", "N:Mail;Multi;;;", "EMAIL;TYPE=WORK:work@example.com", "EMAIL;TYPE=HOME:home@example.org"]),
     "bare.vcf": card("k4", ["FN:Bare", "N:Bare;;;;"]),
+    "johnson.vcf": card("k6", ["FN:Johnson", "N:Johnson;;;;", "EMAIL: spaced@example.net "]),
     "upper.vcf": card("k5", ["FN:JOHN DOE", "N:DOE;JOHN;;;", "EMAIL:JOHN@EXAMPLE.COM", "NICKNAME:日本"]),
 }
 
-FN_NEEDLES = [("John Doe", "whole"), ("john doe", "whole-other-case"), ("John", "prefix"), ("Doe", "suffix"), ("hn D", "infix"), ("zzz", "absent"), ("ü", "non-ascii-infix"), ("Jürgen Müller", "non-ascii-whole")]
+FN_NEEDLES = [("John Doe", "whole"), ("john doe", "whole-other-case"), ("John", "prefix"), ("Doe", "suffix"), ("hn D", "infix"), ("zzz", "absent"), ("ü", "non-ascii-infix"), ("Jürgen Müller", "non-ascii-whole"),
+              # operands whose first or last character is a blank (white space inside text-match is significant)
+              ("John ", "prefix-with-trailing-blank"), (" Doe", "suffix-with-leading-blank"), (" ", "single-blank")]
 MATCH_TYPES = [None, "equals", "contains", "starts-with", "ends-with"]
 COLLS = [None, "i;ascii-casemap", "i;octet", "i;unicode-casemap"]
 
